@@ -39,7 +39,11 @@ impl Opts {
     }
 
     pub fn mockable(&self) -> Mockable {
-        if (self.unimock.is_some() && self.mock_api.is_some()) || self.mockall.is_some() {
+        // an option that is explicitly switched off (`mockall = false`) is the same as no option
+        let unimock = self.default_option(self.unimock, false).0;
+        let mockall = self.default_option(self.mockall, false).0;
+
+        if (unimock && self.mock_api.is_some()) || mockall {
             Mockable::Yes
         } else {
             Mockable::No
